@@ -16,6 +16,9 @@ pub fn literal_texts() -> Vec<&'static str> {
         "0xffffffffffffffff", "0x8000000000000000", "0x7fffffffffffffff", "0xffffffff81000000", "-0x10", "0x10000000000000000", "-", "+", "0x0x10", "0x0x", "00x10", "-0x8000000000000000",
         "-9223372036854775809", "1e3", "1.e3", ".5", "5.", "inf", "NaN", "none", "some", "true", "false", "True",
         "4", "6", "255", "-3", "0.5",
+        // anchors, the dot and flags against text of several lines (`^`/`$` are the ends of the whole text, `.` is
+        // not a line break, unless the pattern itself says otherwise)
+        "^a$", "^abc$", "x.a", "(?m)^a$", "(?s)x.a", "\\na", "a\nx", "^$",
     ]
 }
 
@@ -40,6 +43,7 @@ pub fn field_values() -> Vec<FieldValue> {
         "", "a", "A", "abc", "ABC", "xabcx", "a b", "\"a\"", "a\"", "'a'", "a'", "\u{e9}", "none", "some", "true", "0", "1",
         "42", "-1", "-3", "0x10", "0xff", "1.5", "1.0", "-2.5", "18446744073709551616", "zz", "4", "6", "7", "255",
         "42.0", "+5", "5", "0.5", "b", "ac", "-", "+", "-x", ".", "0xffffffffffffffff", "0x8000000000000000",
+        "x\na", "a\nx", "x\nabc\nx", "a\r\nb", "\n", "x\n",
     ] {
         v.push(FieldValue::String(s.into()));
     }
